@@ -100,8 +100,9 @@ func registry() []PropSpec {
 		{
 			ID: "C18",
 			Quick: []HarnessSpec{
-				{Pkg: pkgGrpcutil, Func: "H18a_q", Unwind: 16, Note: "PercentEncodeMessage on every byte string of length <=3 (all 256 byte values)"},
+				{Pkg: pkgGrpcutil, Func: "H18a_q", Unwind: 16, UTF8Range: true, Note: "PercentEncodeMessage on every byte string of length <=3 (all 256 byte values); a `range` over the message is decoded as UTF-8 (validated by H18r)"},
 				{Pkg: pkgGrpcutil, Func: "H18b_q", Unwind: 12, Note: "header list -> gRPC metadata -> header list: one header, key from {x-a, X-A-Bin, x-b-bin, X-C}, 1..2 values (ASCII or with a 0xff byte)"},
+				{Pkg: pkgGrpcutil, Func: "H18r_q", Unwind: 16, UTF8Range: true, Note: "translator validation: the engine's range-over-string (UTF-8 decoding at symbolic offsets, used by H18a) against a reference decoder in Go executed from its SSA, every string of <=3 bytes; natively the reference is compared with unicode/utf8 on all 16.8 million strings of <=3 bytes"},
 				{Pkg: pkgGrpcutil, Func: "H18m_q", Unwind: 12, Note: "gRPC metadata with three keys (x-a-bin, x-b-bin, x-c), 1..2 values each (ASCII or with a 0xff byte) -> header list: every key keeps its own values"},
 				{Pkg: pkgGrpcutil, Func: "H18f_q", Unwind: 12, Note: "ConvertProtoHeaderToMetadata on two header entries with names from {x-a, X-A, x-b-bin, X-B-Bin} (same name twice, names differing in case, binary keys): every value reaches the metadata, in order, decoded exactly once"},
 				{Pkg: pkgGrpcutil, Func: "H18g_q", Unwind: 12, Note: "the same through the client side: AppendToOutgoingContext, then grpc-go's metadata.FromOutgoingContext (executed from its SSA)"},
